@@ -1268,6 +1268,9 @@ def optimize_grid(data, model_func, pts, grid,
         # iteration order in brute(). So we have to iterate back over them
         # to produce the proper order to return.
         thetas = numpy.zeros(fout.shape)
+        if grid.ndim == 1:
+            # With a single free parameter, brute() returns a 1D grid.
+            grid = grid[numpy.newaxis]
         for indices, temp in numpy.ndenumerate(fout):
             # This is awkward, because we need to access grid[:,indices]
             grid_indices = tuple([slice(None,None,None)] + list(indices))
